@@ -329,9 +329,9 @@ fn last_case_of(stderr: &[u8]) -> Option<(Option<u64>, Value)> {
     let line = s.lines().rev().find_map(|l| l.strip_prefix("CVXCASE "))?;
     if let Some(rest) = line.strip_prefix('@') {
         let (k, j) = rest.split_once(' ')?;
-        return Some((k.parse().ok(), serde_json::from_str(j).ok()?));
+        return Some((k.parse().ok(), parse_json::<Value>(j).ok()?));
     }
-    Some((None, serde_json::from_str(line).ok()?))
+    Some((None, parse_json::<Value>(line).ok()?))
 }
 
 fn run_worker(id: &str, tier: Tier, lo: u64, hi: u64, timeout: Duration, trace: bool, skip: u64) -> WorkerOutcome {
@@ -407,7 +407,7 @@ fn run_worker(id: &str, tier: Tier, lo: u64, hi: u64, timeout: Duration, trace: 
             let text = String::from_utf8_lossy(&out);
             if st.success() {
                 if let Some(line) = text.lines().rev().find_map(|l| l.strip_prefix("CVXRESULT ")) {
-                    match serde_json::from_str::<ChunkResult>(line) {
+                    match parse_json::<ChunkResult>(line) {
                         Ok(r) => return WorkerOutcome::Ok(r),
                         Err(e) => machinery_error(&format!("bad worker result: {e}")),
                     }
@@ -438,6 +438,23 @@ fn run_worker(id: &str, tier: Tier, lo: u64, hi: u64, timeout: Duration, trace: 
             WorkerOutcome::Died(how, last_case_of(&err))
         }
     }
+}
+
+/// JSON produced by this harness may nest as deeply as the programs it describes (a 300-term sum is
+/// 300 levels): parsed without serde_json's recursion limit, on a thread with a large stack
+pub fn parse_json<T: serde::de::DeserializeOwned + Send + 'static>(text: &str) -> Result<T, String> {
+    let text = text.to_string();
+    std::thread::Builder::new()
+        .stack_size(1 << 30)
+        .spawn(move || {
+            let mut de = serde_json::Deserializer::from_str(&text);
+            de.disable_recursion_limit();
+            let r = T::deserialize(&mut de).map_err(|e| e.to_string());
+            r
+        })
+        .map_err(|e| e.to_string())?
+        .join()
+        .map_err(|_| "the JSON parser thread panicked".to_string())?
 }
 
 pub fn machinery_error(msg: &str) -> ! {
@@ -740,7 +757,7 @@ pub fn replay_case_main(check: &dyn Check) -> i32 {
     silence_panics();
     let mut s = String::new();
     let _ = std::io::stdin().read_to_string(&mut s);
-    let case: Value = match serde_json::from_str(&s) {
+    let case: Value = match parse_json::<Value>(&s) {
         Ok(v) => v,
         Err(e) => machinery_error(&format!("bad case: {e}")),
     };
@@ -756,7 +773,7 @@ pub fn replay_file(check: &dyn Check, path: &Path) -> i32 {
         Ok(s) => s,
         Err(e) => machinery_error(&format!("cannot read {}: {e}", path.display())),
     };
-    let v: Value = match serde_json::from_str(&s) {
+    let v: Value = match parse_json::<Value>(&s) {
         Ok(v) => v,
         Err(e) => machinery_error(&format!("bad replay file: {e}")),
     };
